@@ -152,14 +152,28 @@ func c03Run(r *sim.Run) {
 		}
 		x = p.Stream()
 		name = "packager-stream"
+	} else if t.Chance(120) {
+		// an init segment built by a seeded AddEmptyTrack/Set*Descriptor history (ac-3, ec-3, stpp, wvtt, hev1 ... entries)
+		var init *mp4.InitSegment
+		var err error
+		r.Guard("init history", func() { init, _, err = c19Build(r) })
+		if err != nil || init == nil {
+			return
+		}
+		s := sim.NewSink(nil)
+		if err := init.Encode(s); err != nil {
+			return
+		}
+		x, name = s.Buf, "built-init"
 	} else {
 		i := t.Draw(len(c03Streams))
 		x, name = c03Streams[i], c03Names[i]
 	}
-	if t.Chance(450) {
+	if t.Chance(450) || name == "built-init" {
 		units, err := work.ParseUnits(x)
 		if err == nil {
-			ops := work.Transport(r, &units, 1+t.Draw(2), t.Chance(400), []string{"splice", "dup", "swap", "move", "drop", "largesize"})
+			deep := t.Chance(400) || name == "built-init"
+			ops := work.Transport(r, &units, 1+t.Draw(2), deep, []string{"splice", "dup", "swap", "move", "drop", "largesize"})
 			x = work.Serialize(units, true)
 			r.Logf("unit transport on %s: %v -> %d bytes", name, ops, len(x))
 			name += "+transport"
